@@ -506,9 +506,22 @@ def run(ctx):
     # diagnose the failing cases: which conjunct, what the model says
     if bad:
         dist["failing_spellings"] = len(bad)
-        # diagnose a bounded, tag-diverse subset
-        by_tag, pick = {}, []
+        # diagnose a bounded subset: first the cases that the two known classes do not explain, then tag-diverse
+        def explained(i):
+            (_, s), o = cases[i], obs[i]
+            if agree_class(s) == "digit-sep-before-eof" and o[0][0] == "int" and o[2][0] == "syn":
+                return True
+            if o[0][0] == "flt" and sig_digits(s) > 19:
+                try:
+                    return ulp_apart(("flt", bits_of(float(s.replace("_", "").replace(" ", "").replace("\n", "")))), o[0])
+                except Exception:
+                    return False
+            return False
+        unexplained = [i for i in bad if not explained(i)]
+        dist["failing_spellings_unexplained_by_known_classes"] = len(unexplained)
+        by_tag, pick = {}, list(unexplained[:40])
         for i in bad:
+            if i in pick: continue
             t = cases[i][0].split("+")[0]
             by_tag.setdefault(t, []).append(i)
         while len(pick) < 60 and any(by_tag.values()):
@@ -545,6 +558,8 @@ def run(ctx):
                 else:
                     key = "entry-agree:" + agree_class(s)
                     what = "number_chars/number_codes and the reader disagree on this spelling"
+                if (key, s) in shown: continue
+                shown[(key, s)] = 1
                 per_key[key] = per_key.get(key, 0) + 1
                 if per_key[key] > 3: continue
                 failures.append({"key": key, "what": what, "input": json.dumps(s), "entry": names[c] if c < 4 else "number_chars(S) vs read(S+' .')",
